@@ -98,7 +98,8 @@ Colors == {NoColor, Red, Odd, Th4, Th4t, Col("", 1, "0"), Col("FF00FF00", 0, "0.
 Unders == {"none", "single", "double", "singleAccounting", "doubleAccounting"}
 Patterns == {"none", "solid", "gray125", "darkGray", "lightUp"}
 EdgeStyles == {"none", "thin", "thick", "double", "dashed", "mediumDashDot", "hair"}
-Codes == {"General", "0.00", "0.000", "m/d/yyyy", "@", "yyyy-mm-dd", "[$-404]e/m/d", "#,##0.00_);[Red](#,##0.00)"}
+Codes == {"General", "0.00", "0.000", "m/d/yyyy", "@", "yyyy-mm-dd", "[$-404]e/m/d", "#,##0.00_);[Red](#,##0.00)",
+          "0.0\" m\"", "0.000\" kg\""}
 (* (every operator below takes the state-dependent dummy z: TLC evaluates a definition without *)
 (*  parameters and without variables only once, which would freeze the draw)                  *)
 R(S) == RandomElement(S)
@@ -126,8 +127,10 @@ ColDimPool(z) == IF Wide THEN {<<R({"8.38", "12.5", "0.5", "255"}), R(BOOLEAN)>>
 
 (* import items: target carrier <- source cell *)
 Item(k, r, c, r2, c2) == [k |-> k, r |-> r, c |-> c, r2 |-> r2, c2 |-> c2]
-ItemPool(z) ==
-  IF Wide THEN {Item(R({"cell", "cell", "row", "col"}), R(1..6), R(1..6), R(1..6), R(1..6))}
+ItemPool(z, v) ==
+  IF Wide THEN LET cs  == wbs[v].book.cells                 \* mostly from a cell that has a style
+                   src == IF cs = {} \/ R(1..5) = 1 THEN <<R(1..6), R(1..6)>> ELSE LET x == R(cs) IN <<x.r, x.c>>
+               IN {Item(R({"cell", "row", "col"}), R(1..6), R(1..6), src[1], src[2])}
   ELSE {Item("cell", p[1], p[2], q[1], q[2]) : p \in {<<1, 1>>, <<1, 2>>}, q \in {<<1, 1>>, <<1, 2>>}}
        \cup {Item("row", 1, 1, q[1], q[2]) : q \in {<<1, 1>>}} \cup {Item("col", 1, 2, q[1], q[2]) : q \in {<<1, 1>>}}
 
@@ -140,7 +143,7 @@ MCInit == /\ Init /\ nassign = 0 /\ nimport = 0 /\ nsave = [w \in Books |-> 0] /
           /\ hist = <<[a |-> "Init", n |-> NBooks]>>
 
 Assign(w) ==
-  /\ phase[w] = "edit" /\ nassign < MaxAssign /\ (nsave[w] = 0 \/ Wide \/ Small) /\ nsave[w] < MaxSaves
+  /\ phase[w] = "edit" /\ nassign < MaxAssign /\ (nsave[w] = 0 \/ Wide) /\ nsave[w] < MaxSaves
   /\ nassign' = nassign + 1 /\ UNCHANGED <<nimport, nsave, phase>>
   /\ \/ \E p \in CellPool(nassign), s \in StylePool(nassign) :
           /\ Allowed(w, s) /\ SetCell(w, p[1], p[2], s)
@@ -155,7 +158,7 @@ Assign(w) ==
 DoImport(w, v) ==
   /\ w # v /\ phase[w] = "edit" /\ phase[v] = "edit" /\ nimport < MaxImport /\ nsave[w] < MaxSaves
   /\ nimport' = nimport + 1 /\ UNCHANGED <<nassign, nsave, phase>>
-  /\ \E it \in ItemPool(nimport) :
+  /\ \E it \in ItemPool(nimport, v) :
         /\ Import(w, v, it)
         /\ Log([a |-> "Import", w |-> w, v |-> v, items |-> <<it>>])
 DoSave(w) ==
